@@ -232,7 +232,7 @@ theorem closeStep_inv (s : CloseSt) (e : CloseEv) (h : CloseInv s)
         rcases hx with rfl | hx
         · exact hset
         · exact h.wrapSet x hx
-  | detachClose => exact (detach_inv s h).1
+  | detachClose ce => exact (detach_inv s h).1
   | panicWrite => exact h
   | noop => exact h
   | writerFinish id =>
@@ -257,7 +257,7 @@ theorem closeStep_everSet (s : CloseSt) (e : CloseEv) (h : CloseInv s) :
   cases e with
   | set id => simp [closeStep, (detach_inv s h).2.2.1]
   | compress => simp only [closeStep]; cases s.att <;> rfl
-  | detachClose => exact (detach_inv s h).2.2.1
+  | detachClose ce => exact (detach_inv s h).2.2.1
   | panicWrite => rfl
   | noop => rfl
   | writerFinish id =>
